@@ -75,7 +75,7 @@ int Wave_File::read(const std::string& filename)
 		return -1;
 	}
 	pos += 4;
-	while(pos < wavesize)
+	while(pos < wavesize && pos < filesize && filesize - pos >= 8)
 	{
 		uint32_t chunksize, ret;
 
